@@ -7,8 +7,12 @@
     - [C20_natural_size]: adding [#[size(N)]] with N the natural size;
     - [C20_index_explicit]: giving a virtual function the [#[index(i)]] it already had;
     - [C20_enum_explicit]: writing enum values that equal the implicit ones.
-    "Spelling a number in another base" is below the model (the AST carries the value): it is the
-    lexer's business, checked by C18's correspondence and by this property's monitor.
+    "Spelling a number in another base": [C20_number_spelling_irrelevant] (+ [_with_suffix],
+      [C20_isize_reading_ignores_spelling], [C20_usize_reading_ignores_spelling],
+      [C20_int_token_spelling_irrelevant]; IntLit.v) -- for EVERY number, every two spellings of it
+      (decimal, hex in either case, binary, octal, any underscores, any integer suffix) are read as
+      the same value by the lexical model of proc_macro2 + syn + [base10_parse], hence give the same
+      token and the same AST; the lexical model is tied to the real lexer by C18's correspondence (D).
     - [C20_gap_is_address] + [C20_naming_ignores_gap_spelling]: replacing an [unknown<N>] gap by an
       address on the following field (and the reverse): the placement fold ends at the same offset
       with region lists that differ only in how the unnamed gap region was created, and the naming
@@ -24,6 +28,8 @@ From Coq Require Import List NArith ZArith Bool String.
 From PyxisModel Require Import Base Grammar SemTypes Registry Sem PlacementLemmas VftableLemmas RewriteLemmas WholeBuild Monotone OrderIndep Emit ReorderReg Reorder.
 From Coq Require Import Permutation.
 Import ListNotations.
+
+From PyxisModel Require IntLit IntLitSyntax.
 
 Theorem C20_address_explicit : forall R rs last r,
   reg_u8 R -> push_pending R (rs, last) (Some last, r) = push_pending R (rs, last) (None, r).
@@ -79,3 +85,58 @@ Theorem C20_reorder_registration : forall ptr mods mods',
   reordered mods mods' -> is_ok (input_state ptr mods) = is_ok (input_state ptr mods').
 Proof. exact input_state_reordered_ok. Qed.
 Print Assumptions C20_reorder_registration.
+
+Theorem C20_number_spelling_irrelevant :
+  forall (n b1 b2 : N) (m1 m2 : list bool),
+    IntLit.valid_base b1 = true ->
+    IntLit.valid_base b2 = true ->
+    IntLit.lit_value (IntLit.with_underscores m1 (IntLit.spell b1 n)) =
+    IntLit.lit_value (IntLit.with_underscores m2 (IntLit.spell b2 n)).
+Proof. exact IntLit.spelling_irrelevant. Qed.
+Print Assumptions C20_number_spelling_irrelevant.
+
+Theorem C20_number_spelling_irrelevant_with_suffix :
+  forall (n : N) (up1 up2 : bool) (b1 b2 : N) (m1 m2 : list bool) (s1 s2 : string),
+    IntLit.valid_base b1 = true ->
+    IntLit.valid_base b2 = true ->
+    In s1 IntLit.int_suffixes ->
+    In s2 IntLit.int_suffixes ->
+    option_map fst (IntLit.lit_value (IntLit.with_underscores m1 (IntLit.spell_case up1 b1 n) +++ s1)) =
+    option_map fst (IntLit.lit_value (IntLit.with_underscores m2 (IntLit.spell_case up2 b2 n) +++ s2)).
+Proof. exact IntLit.spelling_irrelevant_suffix. Qed.
+Print Assumptions C20_number_spelling_irrelevant_with_suffix.
+
+Theorem C20_isize_reading_ignores_spelling :
+  forall (neg up : bool) (lead : nat) (mask : list nat) (base n : N) (sfx : string),
+    IntLit.valid_base base = true ->
+    IntLit.lead_ok base lead = true ->
+    IntLit.suffix_ok base sfx = true ->
+    IntLit.read_isize neg (IntLit.with_underscores_gen lead mask (IntLit.spell_case up base n) +++ sfx) =
+    (if IntLit.isize_in_range (IntLit.signed neg n) then Some (IntLit.signed neg n) else None).
+Proof. exact IntLit.read_isize_spelling. Qed.
+Print Assumptions C20_isize_reading_ignores_spelling.
+
+Theorem C20_usize_reading_ignores_spelling :
+  forall (up : bool) (lead : nat) (mask : list nat) (base n : N) (sfx : string),
+    IntLit.valid_base base = true ->
+    IntLit.lead_ok base lead = true ->
+    IntLit.suffix_ok base sfx = true ->
+    IntLit.read_usize false
+      (IntLit.with_underscores_gen lead mask (IntLit.spell_case up base n) +++ sfx) =
+    (if fits_usize n then Some n else None).
+Proof. exact IntLit.read_usize_spelling. Qed.
+Print Assumptions C20_usize_reading_ignores_spelling.
+
+Theorem C20_int_token_spelling_irrelevant :
+  forall (neg : bool) (n : N) (up1 up2 : bool) (b1 b2 : N) (l1 l2 : nat) (m1 m2 : list nat)
+      (s1 s2 : string),
+    IntLit.valid_base b1 = true ->
+    IntLit.valid_base b2 = true ->
+    IntLit.lead_ok b1 l1 = true ->
+    IntLit.lead_ok b2 l2 = true ->
+    IntLit.suffix_ok b1 s1 = true ->
+    IntLit.suffix_ok b2 s2 = true ->
+    IntLitSyntax.int_token neg (IntLit.with_underscores_gen l1 m1 (IntLit.spell_case up1 b1 n) +++ s1) =
+    IntLitSyntax.int_token neg (IntLit.with_underscores_gen l2 m2 (IntLit.spell_case up2 b2 n) +++ s2).
+Proof. exact IntLitSyntax.int_token_spelling_irrelevant. Qed.
+Print Assumptions C20_int_token_spelling_irrelevant.
